@@ -138,8 +138,11 @@ class Canon:
 
     def _pairs(self, kvs, seen):
         ks = []
-        for k, v in kvs:
-            ks.append((self.rank(k), self.plain(k).encode("latin-1", "replace"), k, v))
+        ranks = [self.rank(k) for k, _ in kvs]
+        for (k, v), r in zip(kvs, ranks):
+            # like canon2.janet: the text of a key only matters when ranks tie
+            txt = self.plain(k).encode("latin-1", "replace") if ranks.count(r) > 1 else b""
+            ks.append((r, txt, k, v))
         for i in range(len(ks)):
             for j in range(i + 1, len(ks)):
                 if ks[i][0] == ks[j][0] and ks[i][1] == ks[j][1]:
